@@ -58,6 +58,12 @@ JOBS = {
                                         "base_model": {"json": 1, "copy": 2}}], fw="pydantic", layout="nested", kw={}, fail_at=0),
     "rn1": dict(root="Service", samples=[{"name": "s", "config": {"debug": True, "retries": 3}, "fields": [{"title": "a", "width": 1}],
                                          "base_model": {"json": 1, "copy": 2}}], fw="dataclasses", layout="flat", kw={}, fail_at=0, reuse="n1"),
+    # the command line as a library object (Cli().parse_args(argv); run()): its options must stay in that call.  k1 asks for the date /
+    # time pseudo-types and switches the float type off, k2 is the plain run on the same data
+    "k1": dict(root="Ev", samples=[{"when": "2020-01-02", "at": "10:20:30", "n": "1.5", "sub": {"day": "1999-12-31"}}], fw="pydantic", layout="flat",
+               kw={}, fail_at=0, cli=["--datetime", "--disable-str-serializable-types", "float", "-f", "pydantic"]),
+    "k2": dict(root="Ev", samples=[{"when": "2020-01-02", "at": "10:20:30", "n": "1.5", "sub": {"day": "1999-12-31"}}], fw="pydantic", layout="flat",
+               kw={}, fail_at=0, cli=["-f", "pydantic"]),
     # two whole pipelines of different shape whose models carry the SAME registry indexes (1A, 1B, 1C): observed step by step
     # (build steps are yield points too), so that anything a pipeline memoises process-wide under such an index is found out.
     # m1 merges `first` and `second`; m2 merges nothing.
@@ -66,7 +72,7 @@ JOBS = {
     "m2": dict(root="My", samples=[{"left": {"p": 1, "q": "s"}, "right": {"x": 1.5, "y": [1]}}], fw="base", layout="flat", kw={},
                fail_at=0, build=True),
 }
-JOB_NAMES = ("j1", "j2", "j3", "f1", "f2", "r1", "r2", "c1", "c2", "c3", "m1", "m2", "n1", "rn1")
+JOB_NAMES = ("j1", "j2", "j3", "f1", "f2", "r1", "r2", "c1", "c2", "c3", "m1", "m2", "n1", "rn1", "k1", "k2")
 
 
 def raising_class(base, fail_at):
@@ -91,7 +97,29 @@ def build_registry(job):
     return reg
 
 
+def render_cli(job):
+    """the job through json_to_models.cli.Cli in this process; returns the text after the header"""
+    import tempfile
+    from json_to_models.cli import Cli
+    from .drive_cli import strip_header
+    with tempfile.TemporaryDirectory(prefix="j2m-sess-") as d:
+        path = os.path.join(d, "in.json")
+        with open(path, "w") as f:
+            json.dump(job["samples"], f)
+        cli = Cli()
+        old = sys.argv
+        sys.argv = ["json_to_models", "-m", job["root"], path] + list(job["cli"])
+        try:
+            cli.parse_args(sys.argv[1:])
+            text = cli.run()
+        finally:
+            sys.argv = old
+    return strip_header(text), None
+
+
 def render(job, reg=None, on_structure=None):
+    if job.get("cli"):
+        return render_cli(job)
     reg = reg or build_registry(job)
     structure = (compose_models_flat if job["layout"] == "flat" else compose_models)(reg.models_map)
     if on_structure:
@@ -155,6 +183,7 @@ class SessionRecorder:
         self.sched = sched
         self.jobs_by_mapping = {}
         self.tname = {}        # thread ident -> (thread name, current job)
+        self.keep = []         # structures kept alive (their ids identify the jobs)
 
     def me(self):
         return self.tname.get(threading.get_ident(), ("?", "?"))
@@ -219,6 +248,16 @@ class SessionRecorder:
         import contextlib
         st = contextlib.ExitStack()
         # (generate / process_meta_data are recursive and have no loop over pairs of models: they run between gates)
+        def mk_cli_gencode(orig):
+            def generate_code(structure, *a, **k):
+                t, job = rec.me()
+                if t != "?":
+                    rec.jobs_by_mapping[id(structure[1])] = job
+                    rec.keep.append(structure)
+                return orig(structure, *a, **k)
+            return generate_code
+        import json_to_models.cli as CLI
+        st.enter_context(R.patched(CLI, "generate_code", mk_cli_gencode))
         st.enter_context(R.patched(ModelRegistry, "merge_models", mk_build("merge_models")))
         st.enter_context(R.patched(ModelRegistry, "_models_cmp_fn", mk_build("compare")))
         st.enter_context(R.patched(ModelRegistry, "_merge", mk_build("merge_group")))
